@@ -22,6 +22,8 @@ import (
 	"verif/vt"
 )
 
+const sigForkDeadlock = "C06/merge/fork-backpressure-deadlock"
+
 // MergeCase: Seq holds the records of all runs back to back ({k?, r, _o}; r is
 // the run number); Run sorts every run with the repo's comparator before
 // feeding it to the merge operator.
@@ -84,7 +86,9 @@ func genMergeCase(t *rapid.T) MergeCase {
 	pool := drawPool(t, zctx, tg, vg, rapid.SampledFrom([]int{1, 2, 4, 8, 20}).Draw(t, "m"))
 	ord := 0
 	for r := 0; r < nruns; r++ {
-		n := rapid.IntRange(0, maxLen).Draw(t, "len")
+		// query mode: no empty runs (a branch that yields nothing until end of input
+		// starves merge and deadlocks fork|merge; see the "query" case in runMergeCase)
+		n := rapid.IntRange(minRuns-1, maxLen).Draw(t, "len")
 		c.Lens = append(c.Lens, n)
 		for i := 0; i < n; i++ {
 			var fields []zed.Field
@@ -219,25 +223,30 @@ func runMergeCase(c MergeCase) *vt.Outcome {
 			}
 		}
 	case "query":
+		// One branch and one input batch per non-empty run, in run order.  fork|merge
+		// deadlocks as soon as one branch is handed a second batch while merge still
+		// waits for the first batch (or the end) of an earlier branch: the fork router
+		// blocks on the full branch, merge.Op.start blocks on the starved one (open
+		// finding sigForkDeadlock, e.g. `fork (=> where this<=175 => where this>175) |
+		// merge this` over the numbers 1..350 read as ZSON never returns).  That class
+		// cannot be run in-process, so it is excluded by construction here; generated
+		// batch boundaries and empty runs are explored in direct mode.
 		var in []zed.Value
 		var sizes []int
-		for r, run := range runsVals {
-			in = append(in, run...)
-			// keep the generated batch boundaries of each run
-			left := len(run)
-			for bi := 0; left > 0; bi++ {
-				s := max(1, c.Batches[r][min(bi, len(c.Batches[r])-1)])
-				s = min(s, left)
-				sizes = append(sizes, s)
-				left -= s
-			}
-		}
 		var sb strings.Builder
 		sb.WriteString("fork (")
-		for r := range runsVals {
-			fmt.Fprintf(&sb, " => where r==%d", r)
+		for r, run := range runsVals {
+			if len(run) > 0 {
+				in = append(in, run...)
+				sizes = append(sizes, len(run))
+				fmt.Fprintf(&sb, " => where r==%d", r)
+			}
 		}
 		sb.WriteString(" ) | merge k")
+		if len(sizes) < 2 {
+			return &vt.Outcome{Skip: "query-mode-needs-two-non-empty-runs"}
+		}
+		o.Label("excluded:fork-merge-deadlock-batching")
 		var err error
 		out, _, err = runProgram(zctx, sb.String(), in, sizes)
 		if err != nil {
